@@ -357,13 +357,19 @@ type CRLSpec struct {
 	This, Next time.Time
 	Number     int64
 	Revoked    []*big.Int
+	// RevokedAt is the revocation date written into every entry (zero = This).
+	RevokedAt time.Time
 }
 
 // MakeCRL signs a CRL in the name of issuer with signKey (which may be foreign).
 func MakeCRL(spec CRLSpec, issuer *Cert, signKey *Key) []byte {
 	tmpl := &x509.RevocationList{Number: big.NewInt(spec.Number), ThisUpdate: spec.This, NextUpdate: spec.Next, SignatureAlgorithm: x509.ECDSAWithSHA256}
+	at := spec.RevokedAt
+	if at.IsZero() {
+		at = spec.This
+	}
 	for _, s := range spec.Revoked {
-		tmpl.RevokedCertificateEntries = append(tmpl.RevokedCertificateEntries, x509.RevocationListEntry{SerialNumber: s, RevocationTime: spec.This})
+		tmpl.RevokedCertificateEntries = append(tmpl.RevokedCertificateEntries, x509.RevocationListEntry{SerialNumber: s, RevocationTime: at})
 	}
 	iss := &x509.Certificate{Subject: issuer.X.Subject, RawSubject: issuer.X.RawSubject, SubjectKeyId: issuer.X.SubjectKeyId,
 		KeyUsage: x509.KeyUsageCRLSign, PublicKey: &signKey.Priv.PublicKey}
